@@ -40,6 +40,13 @@ Proof. vm_compute. reflexivity. Qed.
 Lemma defer_switch_matches_code : switch_ok defer_action GenMayPanic.defer_switch = true.
 Proof. vm_compute. reflexivity. Qed.
 
+(* the scans are plain nested loops over ALL functions / blocks / instructions, exactly as find_go_functions, does_recover
+   and does_defer_recover_fn fold over every function and every instruction: no statement beside the switch (continue,
+   break, return, filtering if) restricts what reaches it -- e.g. skipping synthetic functions (generic instances). *)
+Lemma scans_have_no_guards :
+  GenMayPanic.go_switch_guards ++ GenMayPanic.recover_switch_guards ++ GenMayPanic.defer_switch_guards = [].
+Proof. vm_compute. reflexivity. Qed.
+
 (* the filter: allowListed's rule, the guard/condition/action of the filter loop, the three rules of isExcludedOne *)
 Definition pair_eqb (a b : string * string) : bool := String.eqb (fst a) (fst b) && String.eqb (snd a) (snd b).
 Fixpoint list_eqb {A} (eq : A -> A -> bool) (l1 l2 : list A) : bool :=
